@@ -60,10 +60,10 @@ pub fn cases<T: KS + Send + Sync>(out: &mut Out, rng0: &mut Rng, tier: &Tier) {
     let mut rng = Rng::new(rng0.next() ^ (tier.shard as u64 + 29).wrapping_mul(0xA076_1D64_78BD_642F));
     let small = k <= 8;
     let nsets = match (tier.thorough, small) {
-        (true, true) => 300,
-        (true, false) => 24,
-        (false, true) => 14,
-        (false, false) => 2,
+        (true, true) => 600,
+        (true, false) => 40,
+        (false, true) => 60,
+        (false, false) => 5,
     };
     for set_no in 0..nsets {
         let mut reads = read_set(&mut rng, k);
